@@ -1,10 +1,10 @@
 //! C10 driver: channel-id allocation, at probe level (the real `ChannelSlots`) and end
 //! to end (`Connection::open_channel`, `Channel::close`, server channel close).
-use crate::args::Args;
-use crate::broker::{with_broker, BrokerCfg, Handled};
-use crate::hooks;
-use crate::session;
-use crate::trace::Shards;
+use vh::args::Args;
+use vh::broker::{with_broker, BrokerCfg, Handled};
+use vh::hooks;
+use vh::session;
+use vh::trace::Shards;
 use amiquip::verif::SlotsProbe;
 use amiquip::{Channel, ConnectionOptions, ConnectionTuning, Error};
 use amq_protocol::frame::AMQPFrame;
@@ -120,7 +120,7 @@ fn run_e2e(out: &mut Shards, max: u16, ops: &[Op], kind: &str, hang_limit: Durat
     let mut cfg = BrokerCfg::default();
     cfg.tune = (max, 131072, 0);
     cfg.log_frames = false;
-    let custom: crate::broker::Custom = Box::new(move |_b, f, _r| {
+    let custom: vh::broker::Custom = Box::new(move |_b, f, _r| {
         if let AMQPFrame::Method(ch, AMQPClass::Channel(m)) = f {
             match m {
                 Ch::CloseOk(_) => {
